@@ -89,6 +89,22 @@ func execBin(op string, f int, r ad.Matrix, a, b ad.Matrix) (res []int64, panick
 		r.MdotM(a, b)
 	case "Set":
 		r.Set(a)
+	case "Equals":
+		// both sides may be views of ONE storage: shifted windows, a square window and its own T()
+		e, done := false, false
+		if f == 1 {
+			if out, ok := callUpper(r, "EQUALS", a, 1e-12); ok {
+				e, done = out[0].Bool(), true
+			}
+		}
+		if !done {
+			e = r.Equals(a, 1e-12)
+		}
+		if e {
+			res = []int64{1}
+		} else {
+			res = []int64{0}
+		}
 	case "Joint":
 		steps := 0
 		for it := r.JointIterator(a); it.Ok() && steps < iterLimit; it.Next() {
@@ -152,6 +168,8 @@ func coqBop(c BCase) string {
 		return "BSet"
 	case "Joint":
 		return "BJoint"
+	case "Equals":
+		return "BEquals"
 	}
 	Die("coqBop: unknown op %s", c.Op)
 	return ""
@@ -213,16 +231,16 @@ func genWindow(r *Rng, n, k, x, y int) ([]View, bool) {
 	var vs []View
 	switch {
 	case tr && r.Bool(): // T() first, then the window in transposed coordinates
-		vs = []View{{K: "T"}, {"S", [4]int{c0, c0 + wy, r0, r0 + wx}}}
+		vs = []View{{K: "T"}, {K: "S", A: [4]int{c0, c0 + wy, r0, r0 + wx}}}
 	case r.Intn(4) == 0 && wx < n && wy < k: // nested: an enclosing window first
 		e0, f0 := r.Range(0, r0), r.Range(0, c0)
 		e1, f1 := r.Range(r0+wx, n), r.Range(c0+wy, k)
-		vs = []View{{"S", [4]int{e0, e1, f0, f1}}, {"C", [4]int{r0 - e0, r0 - e0 + wx, c0 - f0, c0 - f0 + wy}}}
+		vs = []View{{K: "S", A: [4]int{e0, e1, f0, f1}}, {K: "C", A: [4]int{r0 - e0, r0 - e0 + wx, c0 - f0, c0 - f0 + wy}}}
 		if tr {
 			vs = append(vs, View{K: "T"})
 		}
 	default:
-		vs = []View{{"S", [4]int{r0, r0 + wx, c0, c0 + wy}}}
+		vs = []View{{K: "S", A: [4]int{r0, r0 + wx, c0, c0 + wy}}}
 		if tr {
 			vs = append(vs, View{K: "T"})
 		}
@@ -250,8 +268,29 @@ func genBCase(r *Rng, seq int) BCase {
 			c.Vals[i] = 0
 		}
 	}
-	c.Op = []string{"Ew", "MdotM", "MdotM", "Set", "Joint"}[r.Intn(5)]
+	c.Op = []string{"Ew", "MdotM", "MdotM", "Set", "Joint", "Equals"}[r.Intn(6)]
 	c.F = r.Intn(3)
+	if c.Op == "Equals" {
+		// contents that make different windows of one parent EQUAL some of the time: constant, periodic, symmetric
+		switch r.Intn(4) {
+		case 0:
+			for i := range c.Vals {
+				c.Vals[i] = 5
+			}
+		case 1:
+			for i := range c.Vals {
+				c.Vals[i] = int64((i/c.Cols+i%c.Cols)%2 + 1)
+			}
+		case 2:
+			for i := range c.Vals {
+				x, y := i/c.Cols, i%c.Cols
+				if x > y {
+					x, y = y, x
+				}
+				c.Vals[i] = int64(x*7 + y + 1)
+			}
+		}
+	}
 	mx := 3
 	dim := func() int {
 		if r.Intn(20) == 0 {
@@ -294,6 +333,23 @@ func genBCase(r *Rng, seq int) BCase {
 		c.R = genOperand(r, c.Rows, c.Cols, n, m, 10)
 		c.A = genOperand(r, c.Rows, c.Cols, n, m, 10)
 		c.B = whole
+	case "Equals":
+		if r.Intn(2) == 0 {
+			m = n // square windows: a window and its own transpose have one shape
+		}
+		c.R = genOperand(r, c.Rows, c.Cols, n, m, 12)
+		c.A = genOperand(r, c.Rows, c.Cols, n, m, 12)
+		c.B = whole
+		if !c.R.Fresh {
+			switch r.Intn(5) {
+			case 0: // the receiver itself
+				c.A = c.R
+			case 1, 2: // the receiver's own transpose (same storage, same offsets, other flag)
+				if n == m {
+					c.A = Operand{Views: append(append([]View{}, c.R.Views...), View{K: "T"})}
+				}
+			}
+		}
 	default: // Joint: the two sides need not have the same shape
 		c.R = genOperand(r, c.Rows, c.Cols, n, m, 10)
 		if r.Intn(5) == 0 {
@@ -401,6 +457,12 @@ func countBCase(w *CaseWriter, c BCase) {
 	if c.Op == "Ew" || c.Op == "MdotM" {
 		w.Count("r~b:" + rel(bi))
 	}
+	if c.Op == "Equals" && !c.Obs.Panic && len(c.Obs.Res) == 1 {
+		w.Count(fmt.Sprintf("Equals:%s:result=%d", rel(ai), c.Obs.Res[0]))
+		if n, m := len(c.R.Views), len(c.A.Views); !c.R.Fresh && !c.A.Fresh && m == n+1 && c.A.Views[m-1].K == "T" {
+			w.Count("Equals:window-vs-own-T")
+		}
+	}
 	for _, p := range []Operand{c.R, c.A, c.B} {
 		for _, v := range p.Views {
 			if v.K == "T" {
@@ -486,6 +548,18 @@ func binPropCheck(c BCase) (what string, flags map[string]bool) {
 	}
 	if !eq64(res1, res2) {
 		return fmt.Sprintf("%s on the views reported %v, on deep copies %v", c.Op, res1, res2), flags
+	}
+	if c.Op == "Equals" {
+		// independent oracle: the two element arrays read through At
+		exp := int64(1)
+		for i := range er {
+			if i >= len(ea) || er[i] != ea[i] {
+				exp = 0
+			}
+		}
+		if len(res1) != 1 || res1[0] != exp {
+			return fmt.Sprintf("Equals of the views reported %v, their elements are %v and %v", res1, er, ea), flags
+		}
 	}
 	if c.Op == "Joint" {
 		// independent oracle: the union of the non-zero positions of both element arrays in row-major order
@@ -594,16 +668,20 @@ func (h *hunter) exhaustiveBin(rows, cols int, tn string) {
 			vals[i] = 0
 		}
 	}
+	eqVals := make([]int64, rows*cols) // symmetric and periodic: many different windows hold equal elements
+	for i := range eqVals {
+		eqVals[i] = int64((i/cols+i%cols)%2 + 1)
+	}
 	windows := func(x, y int) []Operand {
 		var r []Operand
 		for r0 := 0; r0+x <= rows; r0++ {
 			for c0 := 0; c0+y <= cols; c0++ {
-				r = append(r, Operand{Views: []View{{"S", [4]int{r0, r0 + x, c0, c0 + y}}}})
+				r = append(r, Operand{Views: []View{{K: "S", A: [4]int{r0, r0 + x, c0, c0 + y}}}})
 			}
 		}
 		for r0 := 0; r0+y <= rows; r0++ {
 			for c0 := 0; c0+x <= cols; c0++ {
-				r = append(r, Operand{Views: []View{{"S", [4]int{r0, r0 + y, c0, c0 + x}}, {K: "T"}}})
+				r = append(r, Operand{Views: []View{{K: "S", A: [4]int{r0, r0 + y, c0, c0 + x}}, {K: "T"}}})
 			}
 		}
 		r = append(r, Operand{Fresh: true, N: x, K: y, Vals: distinctVals(x*y, false)})
@@ -627,6 +705,46 @@ func (h *hunter) exhaustiveBin(rows, cols int, tn string) {
 				}
 				h.checkBin(BCase{Type: tn, Rows: rows, Cols: cols, Vals: vals, R: r, A: a, B: whole, Op: "Set"})
 				h.checkBin(BCase{Type: tn, Rows: rows, Cols: cols, Vals: vals, R: r, A: a, B: whole, Op: "Joint"})
+				for f := 0; f < 2; f++ {
+					h.checkBin(BCase{Type: tn, Rows: rows, Cols: cols, Vals: vals, R: r, A: a, B: whole, Op: "Equals", F: f})
+					h.checkBin(BCase{Type: tn, Rows: rows, Cols: cols, Vals: eqVals, R: r, A: a, B: whole, Op: "Equals", F: f})
+				}
+			}
+		}
+	}
+}
+
+// exhaustiveEquals: r.Equals(a) / r.EQUALS(a) for every pair of windows / transposed windows of equal shape of one
+// small parent, with an asymmetric and a periodic-symmetric content (both outcomes occur for shifted windows and for
+// a window against its own transpose)
+func (h *hunter) exhaustiveEquals(rows, cols int, tn string) {
+	asym := make([]int64, rows*cols)
+	sym := make([]int64, rows*cols)
+	for i := range asym {
+		asym[i] = int64(i + 1)
+		sym[i] = int64((i/cols+i%cols)%2 + 1)
+	}
+	whole := Operand{Views: []View{}}
+	for _, sh := range [][2]int{{1, 1}, {1, 2}, {2, 1}, {2, 2}, {3, 3}} {
+		x, y := sh[0], sh[1]
+		var ws []Operand
+		for r0 := 0; r0+x <= rows; r0++ {
+			for c0 := 0; c0+y <= cols; c0++ {
+				ws = append(ws, Operand{Views: []View{{K: "S", A: [4]int{r0, r0 + x, c0, c0 + y}}}})
+			}
+		}
+		for r0 := 0; r0+y <= rows; r0++ {
+			for c0 := 0; c0+x <= cols; c0++ {
+				ws = append(ws, Operand{Views: []View{{K: "S", A: [4]int{r0, r0 + y, c0, c0 + x}}, {K: "T"}}})
+				ws = append(ws, Operand{Views: []View{{K: "T"}, {K: "S", A: [4]int{c0, c0 + x, r0, r0 + y}, P: 1}}})
+			}
+		}
+		for _, r := range ws {
+			for _, a := range ws {
+				for f := 0; f < 2; f++ {
+					h.checkBin(BCase{Type: tn, Rows: rows, Cols: cols, Vals: asym, R: r, A: a, B: whole, Op: "Equals", F: f})
+					h.checkBin(BCase{Type: tn, Rows: rows, Cols: cols, Vals: sym, R: r, A: a, B: whole, Op: "Equals", F: f})
+				}
 			}
 		}
 	}
